@@ -161,8 +161,59 @@ func elemOptions(name string, swap bool) []Elem {
 		return o
 	case "z": // a name that never occurs in a content
 		return []Elem{{name, "attr", 0}, {name, "req", 0}, {name, "block", 0}}
+	case "s": // the shared name s (an argument AND blocks of that name are in the content), requested as an attribute
+		return []Elem{{"s", "attr", 0}, {"s", "req", 0}}
+	case "S": // the shared name s requested as a block type: a schema may hold both (slots s and S are independent)
+		return []Elem{{"s", "block", 0}, {"s", "block", 1}}
 	}
 	return nil
+}
+
+// sharedNameTag: last class component of a case whose content has an argument and blocks of one name.
+const sharedNameTag = "argument-and-block-share-name"
+
+// sharedNames: the names that occur in the content both as an argument and as a block type. The native
+// syntax keeps the two namespaces apart (`limit = 5` next to `limit "cpu" {}`); a schema names an item
+// together with its kind, so the argument and the blocks are different items that share a name.
+func sharedNames(content absconf.Body) map[string]bool {
+	as, bs := map[string]bool{}, map[string]bool{}
+	for _, it := range content {
+		if it.IsAttr() {
+			as[it.Attr] = true
+		} else {
+			bs[it.Block] = true
+		}
+	}
+	out := map[string]bool{}
+	for n := range as {
+		if bs[n] {
+			out[n] = true
+		}
+	}
+	return out
+}
+
+// invalidSchema: spec.md "Within a schema, it is an error to request the same attribute name twice or to
+// request a block type whose name is also an attribute name." The result of applying such a schema is not
+// defined (and neither is the remaining body it leaves).
+func invalidSchema(es []Elem, mask uint32) bool {
+	as, bs := map[string]bool{}, map[string]bool{}
+	for i, e := range es {
+		if mask&(1<<i) == 0 {
+			continue
+		}
+		if e.Kind == "block" {
+			bs[e.Name] = true
+		} else {
+			as[e.Name] = true
+		}
+	}
+	for n := range as {
+		if bs[n] {
+			return true
+		}
+	}
+	return false
 }
 
 // schemas enumerates all schemas over the name universe with <= max elements
@@ -681,7 +732,7 @@ func (r *runner) fail(op, clause, detail string, tags ...string) {
 		}
 		cl += "." + t
 	}
-	if r.realTag != "" && !(r.ghost != nil && len(tags) > 0) {
+	if r.realTag != "" && !((r.ghost != nil || r.realTag == sharedNameTag) && len(tags) > 0) {
 		// (a tag names one recorded defect of dynblock, whatever else the body holds: the class stays that defect's)
 		cl += "." + r.realTag
 	}
@@ -784,6 +835,11 @@ func (r *runner) schema(es []Elem, partsList []int, only []int) int64 {
 	r.cur.assign, r.cur.parts = nil, 0
 	oneReal := observe(r.body.Content(hFull))
 	oneRef := r.model.Content(rFull)
+	if invalidSchema(es, full) {
+		// the parts of a split may each be a proper schema while their union names s as an argument and as a
+		// block type: the single step with the union is then not defined (spec.md), the steps are
+		oneRef.Unspec = true
+	}
 	r.sig.add(oneReal)
 	if cl, d := mismatch(oneReal, oneRef, countErrs); cl != "" {
 		r.fail("content", cl, d)
@@ -822,6 +878,25 @@ func (r *runner) split(assign []int, parts int, oneReal robs, oneRef refbody.Res
 	masks := make([]uint32, parts)
 	for i, p := range assign {
 		masks[p] |= 1 << i
+	}
+	for _, m := range masks {
+		if invalidSchema(r.es, m) {
+			// one part requests the name as an argument and as a block type: neither that step's result nor
+			// what it leaves is defined. The calls are made (no panic, the chain stays usable), nothing is compared.
+			b := r.body
+			for i := 0; i < parts; i++ {
+				h, _ := r.schemaOf(masks[i])
+				_, rem, _ := b.PartialContent(h)
+				if rem == nil {
+					r.fail(fmt.Sprintf("partial%d", i+1), "nil-remainder", "PartialContent returned a nil remaining body")
+					return
+				}
+				b.Content(h)
+				b = rem
+			}
+			b.JustAttributes()
+			return
+		}
 	}
 	curB, curM, curT := r.body, r.model, r.twin
 	union := robs{blocks: map[string][]string{}}
@@ -1026,8 +1101,16 @@ func accumulate(u *robs, got robs) {
 // schema, with its own kind and label count).
 func (r *runner) remainder(rem hcl.Body, remM refbody.Model, remT hcl.Body, tags func(string) []string) {
 	inSchema := map[string]bool{}
+	shared := sharedNames(r.content)
 	for _, e := range r.es {
 		inSchema[e.Name] = true
+		// a name that the content uses for an argument and for blocks is two items: the schema covers the
+		// one whose kind it names, the other one belongs to the complement
+		if e.Kind == "block" {
+			inSchema["block "+e.Name] = true
+		} else {
+			inSchema["attr "+e.Name] = true
+		}
 	}
 	var comp []Elem
 	seen := map[string]bool{}
@@ -1037,8 +1120,15 @@ func (r *runner) remainder(rem hcl.Body, remM refbody.Model, remT hcl.Body, tags
 		if !it.IsAttr() {
 			name = it.Block
 		}
+		if shared[name] {
+			if it.IsAttr() {
+				name = "attr " + name
+			} else {
+				name = "block " + name
+			}
+		}
 		if inSchema[name] {
-			if !it.IsAttr() && blockTypeIn(r.es, ^uint32(0), name) {
+			if !it.IsAttr() && blockTypeIn(r.es, ^uint32(0), it.Block) {
 				consumedBlocks = true
 			}
 			continue
@@ -1051,9 +1141,9 @@ func (r *runner) remainder(rem hcl.Body, remM refbody.Model, remT hcl.Body, tags
 		}
 		seen[name] = true
 		if it.IsAttr() {
-			comp = append(comp, Elem{name, "attr", 0})
+			comp = append(comp, Elem{it.Attr, "attr", 0})
 		} else {
-			comp = append(comp, Elem{name, "block", len(it.Labels)})
+			comp = append(comp, Elem{it.Block, "block", len(it.Labels)})
 		}
 	}
 	if g := r.ghost; g != nil {
@@ -1073,6 +1163,33 @@ func (r *runner) remainder(rem hcl.Body, remM refbody.Model, remT hcl.Body, tags
 			extra = append(extra, "only-consumed-blocks")
 		}
 		r.fail("justattrs-on-remainder", cl, d, extra...)
+	}
+	if invalidSchema(comp, ^uint32(0)) {
+		// the schema names neither the argument nor the blocks of a shared name: the complement would request
+		// the name in both kinds, which no single schema may (spec.md). It is applied in two proper steps
+		// instead: the arguments partially, then the block types exhaustively on what that leaves.
+		var ca, cb []Elem
+		for _, e := range comp {
+			if e.Kind == "block" {
+				cb = append(cb, e)
+			} else {
+				ca = append(ca, e)
+			}
+		}
+		pc, rem2, pd := rem.PartialContent(hclSchema(ca))
+		pr, remM2 := remM.Partial(refSchema(ca))
+		if rem2 == nil {
+			r.fail("complement-on-remainder", "nil-remainder", "PartialContent returned a nil remaining body")
+			return
+		}
+		if cl, d := mismatch(observe(pc, pd), pr, r.kind != "expanded"); cl != "" {
+			r.fail("complement-on-remainder", cl, d+" (arguments of the complement schema "+schemaString(comp)+", partially)", tags(cl)...)
+			return
+		}
+		if cl, d := mismatch(observe(rem2.Content(hclSchema(cb))), remM2.Content(refSchema(cb)), r.kind != "expanded"); cl != "" {
+			r.fail("complement-on-remainder", cl, d+" (block types of the complement schema "+schemaString(comp)+", after its arguments)", tags(cl)...)
+		}
+		return
 	}
 	got := observe(rem.Content(hclSchema(comp)))
 	if cl, d := mismatch(got, remM.Content(refSchema(comp)), r.kind != "expanded"); cl != "" {
@@ -1174,6 +1291,9 @@ func runCase(d Data, kind string, content absconf.Body, real Real) (*runner, []s
 	if real.Ghost != nil {
 		r.ghost = real.Ghost
 		r.realTag = "dynamic-block-empty-for-each"
+	}
+	if r.realTag == "" && len(sharedNames(content)) > 0 {
+		r.realTag = sharedNameTag
 	}
 	if real.Kind == "merged" && len(real.Cuts) == 1 {
 		tr := Real{Kind: "native"}
@@ -1585,6 +1705,12 @@ func gen(tier string, emit func(engine.Case) bool) {
 		names, maxSchema, parts = "abxyz", 4, 3
 	}
 	n := 0
+	stopped := false
+	defer func() {
+		if !stopped {
+			genShared(thorough, emit)
+		}
+	}()
 	contents(alpha, maxLen, func(b absconf.Body) bool {
 		n++
 		for ri, r := range realisations(b, thorough) {
@@ -1600,9 +1726,54 @@ func gen(tier string, emit func(engine.Case) bool) {
 			for ch := 0; ch < chunks; ch++ {
 				d.Chunk, d.Chunks = ch, chunks
 				if !emit(engine.Case{ID: fmt.Sprintf("%d/%04d/%02d-%s/%02d", len(b), n, ri, r.Kind, ch), Data: d}) {
+					stopped = true
 					return false
 				}
 			}
+		}
+		return true
+	})
+}
+
+// genShared: the *shared name* family (emitted after the contents above, whose identifiers stay as they were).
+// Contents: every sequence of <= 3 items over {s =, s {}, s "l" {}, a =, x {}} (thorough: + x "l" {}) that holds
+// the argument s AND at least one block of type s -- in the native syntax the argument and block namespaces are
+// separate, so these are different items that share a name. Realised as every body kind like any other content
+// (native; both JSON encodings, where the document has two properties named s and the schema alone decides what
+// they are; dynblock-expanded, static and with the s blocks generated; merges of 1 and 2 files, every cut and every
+// syntax mix, so that the argument and the blocks sit in one file or in different files; thorough: 3 files, contents
+// of 3 items all-native in every cut and native/JSON/native with one item per file), without
+// the JSON zero-blocks and empty-dynamic-block insertions. Sequences that define the argument twice: merges only.
+// Schemas: all over the slots s (the name as optional / required attribute), S (the name as block type with 0 or 1
+// labels), a, x with <= 3 elements (thorough: 4) -- so the name is requested as an attribute only, as a
+// block type only, or as both; every ordered split puts the two requests into different parts in both orders, or
+// into the same part. spec.md calls a single schema that requests a name in both kinds an error, so a part (or the
+// one-step union) of that shape is executed but not compared (invalidSchema); all other steps are compared with the
+// reference as usual, and the complement schema of the final remainder counts the argument and the blocks separately.
+func genShared(thorough bool, emit func(engine.Case) bool) {
+	alpha := []alt{{attr: "s"}, {block: "s"}, {block: "s", labels: 1}, {attr: "a"}, {block: "x"}}
+	names, maxSchema, parts := "sSax", 3, 2
+	if thorough {
+		alpha = append(alpha, alt{block: "x", labels: 1})
+		maxSchema, parts = 4, 3
+	}
+	n := 0
+	contents(alpha, 3, func(b absconf.Body) bool {
+		if len(sharedNames(b)) == 0 {
+			return true
+		}
+		n++
+		ri := 0
+		// (the quick selection of realisations in both tiers; thorough adds the merges of 3 files of that selection)
+		for _, r := range realisations(b, false) {
+			if r.Deg != nil || r.Wrap != "" || r.Ghost != nil || (!thorough && r.Kind == "merged" && len(r.Cuts) == 3) {
+				continue
+			}
+			d := Data{Content: b, Real: r, Names: names, MaxSchema: maxSchema, Parts: parts}
+			if !emit(engine.Case{ID: fmt.Sprintf("shared-name/%d/%04d/%02d-%s/00", len(b), n, ri, r.Kind), Data: d}) {
+				return false
+			}
+			ri++
 		}
 		return true
 	})
@@ -1739,6 +1910,9 @@ func countMode(tier string) {
 		if d.Real.Ghost != nil {
 			k = "expanded+empty-dynamic"
 		}
+		if len(sharedNames(d.Content)) > 0 {
+			k = "shared-name " + k
+		}
 		per["cases "+k]++
 		return true
 	})
@@ -1757,6 +1931,7 @@ func main() {
 		Technique: "bounded exhaustive enumeration of logical contents x Body implementations x schemas x ordered schema splits; every Content / PartialContent / JustAttributes result compared with a set/sequence reference model, two-step vs one-step compared directly",
 		Rule: "logical contents: every sequence of <= 3 items over {a=, b=, x{}, x \"l\"{}, x \"l\" \"l\"{}, y{}} (thorough: + y \"l\"{}), each item identifiable (attribute value 10+i, block body `id = 20+i`, labels alternate k/m); sequences with a repeated attribute name only as merges that put the definitions in different files; blocks of one type with different label counts not as JSON. " +
 			"Realised as: native; JSON compact (one object, adjacent blocks joined) and JSON array-heavy (arrays at every level); JSON 'zero blocks' encodings (contents of <= 2 items, thorough <= 3): each of those two documents with ONE insertion of a property for the block type x or y whose value holds no block body -- null, [], {}, [{}], {\"k\": null}, {\"k\": []}, {\"k\": {}}, {\"k\": {\"m\": null}}, {\"k\": {\"m\": []}} at the end of the top-level body and null / [] at every other property position (array-form body: as a new element at every position, and the empty object {} as a new element at every position), so alone, before, between and after real blocks of the same type (repeated property names); and at every label level of every block property a label k with null, [], {}, {\"k\": null}, {\"k\": []} (as far as levels remain) at the end and null / [] at every other position, and {} at every position of an array-form label level (thorough: every form at every position, labels k and z); contents of <= 1 item (thorough <= 2) also one nesting level down, as the body of a block w of a wrapper file ({\"w\": DOC}, {\"w\": [{}, DOC]}, {\"w\": {\"k\": DOC}}), plain and with the body-level insertions; dynblock.Expand of the native body with all blocks static, with every maximal run of same-type blocks written as one dynamic block with a constant for_each, and with only the first run dynamic (thorough: every subset of runs); the expanded body (contents of <= 2 items, thorough <= 3; other blocks all static / all runs dynamic, thorough: every subset) with ONE extra dynamic block of type x or y whose for_each is an empty collection ([] before every physical item and at the end, {} at the end; thorough: both everywhere), written with a content block and with as many label expressions as the blocks of that type in the content have, for a type without blocks 0 and 1 (thorough 0..2) -- a block that generates nothing, alone of its type or before / between / after static and generated blocks of its type; hcl.MergeBodies of ONE file (native or JSON; every step is also run on the file itself and must give the same observation), of the content cut into 2 consecutive files in every way incl. empty files with every file native or JSON, and cut into 3 consecutive files in every way (contents of <= 2 items: every syntax mix; 3 items: all-native for every cut and native/JSON/native with one item per file; thorough: every mix), so that files that contribute nothing to a step occur at every position. " +
+			"Shared-name family (after the contents above): every sequence of <= 3 items over {s=, s{}, s \"l\"{}, a=, x{}} (thorough: + x \"l\"{}) that holds the argument s AND a block of type s (one name in both namespaces of the native syntax), realised as native, both JSON encodings (two properties named s; the schema decides what they are), expanded (static / s blocks generated), merges of 1 and 2 files in every cut and syntax mix (thorough: 3 files), x ALL schemas with <= 3 (thorough 4) elements over the slots 's as optional/required attribute', 's as block type with 0 or 1 labels', a, x -- the name requested in one kind, in the other, or in both -- x every ordered split, so the two requests fall into different parts in both orders or into one part; a part (or one-step union) that requests the name in both kinds is an erroneous schema by spec.md and is executed without comparison, the other steps are compared as usual and the complement of the final remainder counts the argument and the blocks separately (if it would need both kinds: arguments partially, then block types exhaustively). " +
 			"x ALL schemas over the names a,b,x,y with <= 3 elements (attribute optional/required; block type with 0, 1 or 2 labels; names absent from a content play the part of unknown names) -- thorough: over a,b,x,y,z with <= 4 elements, z (never present) as optional/required attribute or block type, plus the kind swaps 'a requested as a block type' and 'x requested as an attribute' (merges of 3 files: the quick schema space) " +
 			"x EVERY ordered assignment of the schema elements to 2 parts, empty parts included (thorough: also every assignment onto 3 non-empty parts). Per schema: Content(schema). Per split: PartialContent(part 1) [, PartialContent(part 2)] and then on the remainder both Content(last part) and PartialContent(last part) followed, on the final remainder, by JustAttributes and by Content(complement schema = every name of the content outside the schema with its own kind and label count). Bodies are reused: the source body serves all schemas and splits of a case; every remainder is processed partially, exhaustively, partially again and exhaustively again with the same schema, and the final remainder answers JustAttributes before and after its exhaustive processing -- repeated calls must give identical observations (incl. the number of errors). " +
 			"Every result is compared with ref/refbody (L1-L3): attribute names and values, per-type block sequences with labels and block identity, error presence, number of errors >= number of erroneous items (not for expanded bodies, where one dynamic block stands for several items); the union of the steps is compared with the single step directly (L4); all implementations are held to the same reference on the same logical content (L5). A case = (content, realisation[, schema chunk]) and covers all its schemas and splits; the check keeps going after a failure and reports per case the failure class that is not yet a recorded finding.",
@@ -1764,6 +1939,7 @@ func main() {
 			"the reference model ref/refbody is the specification's reading of spec.md 'Schema-driven Processing' / 'Partial Processing of Body Content' / 'Dynamic Attributes Processing' and json/spec.md 'Structural Elements'; where those are silent (label-count mismatch content, duplicate attribute content, null / empty label levels in JSON) the model marks the affected names unspecified and only error presence is compared",
 			"a JSON property named after a requested block type is 'a definition of zero or more blocks of that type' whatever its value (json/spec.md), so it is consumed by the step that requests the type: where the value's meaning is not specified (null, an empty label level) that step's own result is not compared, but the property is absent from the remaining body and every later step is compared as usual; [] below the label levels is specified as zero blocks and compared in every step",
 			"a dynamic block whose for_each collection is empty denotes no block: the logical content is the content without it, and the step that requests its type consumes it (returns nothing for it, it is gone from the remaining body); not compared: the type's part of a step whose label count differs from the number of label expressions written, and whether an exhaustive / dynamic-attributes step that still finds the block (its type was never requested) reports an error for it",
+			"spec.md: 'Within a schema, it is an error to request ... a block type whose name is also an attribute name': the result of a step with such a schema (and the remaining body it leaves) is not compared; two proper schemas that request one name as an attribute and as a block type in different steps are each defined: in a syntax with separate namespaces (native, expanded) the argument and the blocks are different items, each selected by the request of its kind only and otherwise left in the remaining body; in JSON a property is whatever the first schema that names it says (json/spec.md), and it is then gone from the remaining body",
 			"expression evaluation of number literals and of the dynblock iterator object is trusted (used to identify attributes and blocks)",
 		},
 		Gen:    gen,
